@@ -38,9 +38,10 @@ func stepCallName(s Step) string {
 
 func runC18(c *Ctx) {
 	p, r := c.P, c.R
-	r.Explanation = "Decides on every path of cloudevents.(*FormatterFilter).Process and sign: errors of every fallible step (validate, id generation, encoding, signing, predicate) end Process with a nil event; the cloudevents.Event type has exactly the ten JSON members of the property and the literal is filled from id / Source.String() / the 1.0 constant / string(e.Type) / Data() or payload / schema / e.CreatedAt, with an empty ID() rejected; the accepted formats of Format.validate and the arms of Process agree (content type, indentation, format key); signing happens iff a signer is configured and the type is listed, serialized is the base64 of exactly the bytes handed to the signer taken before the buffer is reset, serialized_hmac is the signer's result, and the document is re-encoded afterwards; the predicate decides between (e,nil), (nil,nil) and (nil,err). Uniqueness of random ids and JSON validity are not decided (third-party semantics). C18.validate: decision table of FormatterFilter.validate (accept only established-valid configurations, reject only established-invalid ones). C18.sig Rotate:store-then-error: a rejected Rotate has not replaced the signer. C18.recover: recover discipline over package cloudevents."
+	r.Explanation = "Decides on every path of cloudevents.(*FormatterFilter).Process and sign: errors of every fallible step (validate, id generation, encoding, signing, predicate) end Process with a nil event; the cloudevents.Event type has exactly the ten JSON members of the property and the literal is filled from id / Source.String() / the 1.0 constant / string(e.Type) / Data() or payload / schema / e.CreatedAt, with an empty ID() rejected; the accepted formats of Format.validate and the arms of Process agree (content type, indentation, format key); signing happens iff a signer is configured and the type is listed, serialized is the base64 of exactly the bytes handed to the signer taken before the buffer is reset, serialized_hmac is the signer's result, and the document is re-encoded afterwards; the predicate decides between (e,nil), (nil,nil) and (nil,err). Uniqueness of random ids and JSON validity are not decided (third-party semantics). C18.validate: decision table of FormatterFilter.validate (accept only established-valid configurations, reject only established-invalid ones). C18.sig Rotate:store-then-error: a rejected Rotate has not replaced the signer. C18.recover: recover discipline over package cloudevents. C18.process encoded-bytes-readonly: nothing writes through the encoder's buf.Bytes() before it is stored."
 	r.NotDecided = []string{"uniqueness of random ids", "validity of the JSON produced by encoding/json", "that serialized decodes to the unsigned document byte for byte (follows from C18.sig under A4)"}
 	c.errControls()
+	c.ruleEncodedBytesReadOnly("C18.process", PkgCloud)
 	proc := c.Fn("C18.anchor", PkgCloud, "FormatterFilter", "Process")
 	sign := c.Fn("C18.anchor", PkgCloud, "FormatterFilter", "sign")
 	if proc == nil || sign == nil {
